@@ -44,6 +44,7 @@ type Case struct {
 	Fault    string       `json:"fault,omitempty"` // "" | "callback" | "cancel"
 	FaultAt  int          `json:"fault_at,omitempty"`
 	NilPart  string       `json:"nil_part,omitempty"`
+	NilStore bool         `json:"nil_store,omitempty"` // pass a nil entity store (Store must be empty): documented as "no entities"
 }
 
 func subst(v ir.Value, comp map[string]ir.Value) ir.Value {
@@ -227,7 +228,11 @@ func check(c *Case) (res outcome) {
 	calls := 0
 	callsAfterCancel := 0
 	cancelled := false
-	err := batch.Authorize(ctx, ps, store, req, func(r batch.Result) error {
+	var getter types.EntityGetter = store
+	if c.NilStore {
+		getter = nil
+	}
+	err := batch.Authorize(ctx, ps, getter, req, func(r batch.Result) error {
 		if cancelled {
 			callsAfterCancel++
 		}
@@ -736,6 +741,12 @@ func TestMembershipTemplates(t *testing.T) {
 		ir.Bin(ir.OpContainsAny, ir.Access(C, "groups"), ir.SetE(R, ir.Lit(ir.Ent("T1", "staff")))),
 		ir.Bin(ir.OpEq, ir.Access(C, "groups"), ir.SetE(ir.Lit(ir.Ent("T1", "admins")), ir.Lit(ir.Ent("T0", "nobody")))),
 		ir.IsIn(P, "T0", ir.SetE(ir.Access(ir.Access(C, "rec"), "g"), R)),
+		// `if <depends on a variable> then X else X`: the branches agree, the guard may fail or be a non-Boolean once bound
+		ir.If(ir.Access(ir.Access(C, "rec"), "g"), ir.Lit(ir.Bool(true)), ir.Lit(ir.Bool(true))),
+		ir.If(ir.Bin(ir.OpIn, P, ir.Access(ir.Access(C, "rec"), "n")), ir.Lit(ir.Bool(true)), ir.Lit(ir.Bool(true))),
+		ir.If(ir.Bin(ir.OpEq, ir.Access(R, "missing"), ir.Lit(ir.Long(1))), ir.Lit(ir.Bool(true)), ir.Lit(ir.Bool(true))),
+		ir.If(ir.Bin(ir.OpIn, P, ir.Access(C, "groups")), ir.Is(ir.Lit(ir.Ent("T0", "alice")), "T0"), ir.Bin(ir.OpEq, ir.Access(ir.Access(C, "rec"), "n"), ir.Lit(ir.Long(1)))),
+		ir.Bin(ir.OpEq, ir.If(ir.Bin(ir.OpLt, ir.Access(ir.Access(C, "rec"), "g"), ir.Lit(ir.Long(2))), ir.Lit(ir.Long(7)), ir.Lit(ir.Long(7))), ir.Lit(ir.Long(7))),
 	}
 	pvals := []ir.Value{ir.Ent("T0", "alice"), ir.Ent("T0", "bob"), ir.Ent("T1", "staff")}
 	gvals := []ir.Value{ir.Ent("T1", "admins"), ir.Ent("T1", "staff"), ir.Ent("T0", "zz")}
@@ -765,6 +776,11 @@ func TestMembershipTemplates(t *testing.T) {
 						Context: ir.Rec(ir.F("groups", ir.Set(g, ir.Ent("T0", "nobody"))), ir.F("rec", ir.Rec(ir.F("g", g), ir.F("n", ir.Long(1)))))}
 					count++
 					run(c, "membership", fail)
+					// the same template against a nil entity store ("no entities"): every hierarchy / attribute look-up still answers
+					nc := *c
+					nc.Store, nc.NilStore = nil, true
+					count++
+					run(&nc, "membership-nil-store", fail)
 				}
 			}
 		}
